@@ -37,9 +37,11 @@ const (
 )
 
 // Seg is one run-length encoded piece of a schedule: let thread T make up to N back-end calls.
-// A segment whose thread is blocked on the store lock, finished or absent is dropped. When the
-// schedule is used up the run completes without pre-emption (the running thread continues while it
-// can, then the runnable thread with the lowest index).
+// A segment whose thread is finished or absent is dropped. While the segment's thread is blocked on
+// the store lock the segment stays pending and the run continues without pre-emption (the running
+// thread while it can, then the runnable thread with the lowest index); the switch to T happens at
+// the first point where T can run - so most segments produce a pre-emption at a lock boundary. The
+// same rule completes the run when the schedule is used up.
 type Seg struct {
 	T int `json:"t"`
 	N int `json:"n"`
@@ -118,6 +120,7 @@ type Sched struct {
 	schedule []Seg
 	segIdx   int
 	segUsed  int
+	finished []bool
 
 	Steps     []Step
 	Decisions []Decision
@@ -136,7 +139,7 @@ var errAbandoned = errors.New("c17: run abandoned by the scheduler")
 var errNotHeld = errors.New("c17: unlock of a store lock that is not held")
 
 func newSched(n int, schedule []Seg, watchdog time.Duration) *Sched {
-	s := &Sched{n: n, ev: make(chan evt, 4*n+4), lockW: -1, lockR: make([]int, n), schedule: schedule, watchdog: watchdog}
+	s := &Sched{n: n, ev: make(chan evt, 4*n+4), lockW: -1, lockR: make([]int, n), schedule: schedule, watchdog: watchdog, finished: make([]bool, n)}
 	for i := 0; i < n; i++ {
 		s.thr = append(s.thr, &thr{grant: make(chan bool, 1)})
 	}
@@ -175,12 +178,18 @@ func (s *Sched) enabled(tid int, c call) bool {
 func (s *Sched) pick(runnable []int, cur int) int {
 	for s.segIdx < len(s.schedule) {
 		seg := s.schedule[s.segIdx]
-		if s.segUsed < seg.N && containsInt(runnable, seg.T) {
+		if seg.T < 0 || seg.T >= s.n || s.finished[seg.T] || s.segUsed >= seg.N {
+			s.segIdx++
+			s.segUsed = 0
+			continue
+		}
+		if containsInt(runnable, seg.T) {
 			s.segUsed++
 			return seg.T
 		}
-		s.segIdx++
-		s.segUsed = 0
+		// the segment's thread waits for the store lock: the segment stays pending (the switch
+		// happens as soon as the thread can run) and somebody else runs meanwhile
+		break
 	}
 	if containsInt(runnable, cur) {
 		return cur
@@ -257,6 +266,7 @@ func (s *Sched) Run(views []*view, bodies []func(v *view)) {
 		}
 		if e.fin {
 			fin++
+			s.finished[e.tid] = true
 		} else {
 			pending[e.tid] = e.c
 		}
@@ -277,6 +287,7 @@ func (s *Sched) Run(views []*view, bodies []func(v *view)) {
 		}
 		if e.fin {
 			fin++
+			s.finished[tid] = true
 		} else {
 			pending[tid] = e.c
 		}
@@ -327,6 +338,7 @@ func (s *Sched) Run(views []*view, bodies []func(v *view)) {
 		}
 		if e.fin {
 			fin++
+			s.finished[tid] = true
 		} else {
 			pending[tid] = e.c
 		}
